@@ -1,6 +1,7 @@
 """Registry: property id -> check function(tier, replay_path) -> exit code."""
-from . import engine, server
+from . import engine, misc, server
 
 REGISTRY = {}
 REGISTRY.update(engine.REGISTRY)
 REGISTRY.update(server.REGISTRY)
+REGISTRY.update(misc.REGISTRY)
